@@ -79,6 +79,80 @@ theorem chunks_ne_nil (rs : Nat) : ∀ (fuel : Nat) (buf : Bytes) (l : List Byte
       | some l' => simp [hc] at h; subst h; simp
     · cases h; simp
 
+theorem chunksVar_flatten (rs : Nat → Nat) : ∀ (fuel i : Nat) (buf : Bytes) (l : List Bytes),
+    chunksVar rs i fuel buf = some l → l.flatten = buf
+  | 0, i, buf, l, h => by
+    unfold chunksVar at h
+    split at h
+    · cases h
+    · cases h; simp
+  | fuel + 1, i, buf, l, h => by
+    unfold chunksVar at h
+    split at h
+    · cases hc : chunksVar rs (i + 1) fuel (buf.drop (rs i)) with
+      | none => simp [hc] at h
+      | some l' =>
+        simp [hc] at h
+        subst h
+        simp [chunksVar_flatten rs fuel _ _ l' hc]
+    · cases h; simp
+
+/-- record `i + j` of the write is at most `rs (i + j)` long: the size in force when it was cut -/
+theorem chunksVar_le (rs : Nat → Nat) : ∀ (fuel i : Nat) (buf : Bytes) (l : List Bytes),
+    chunksVar rs i fuel buf = some l → ∀ j (hj : j < l.length), l[j].length ≤ rs (i + j)
+  | 0, i, buf, l, h => by
+    unfold chunksVar at h
+    split at h
+    · cases h
+    · cases h
+      intro j hj
+      have : j = 0 := by simpa using hj
+      subst this; simp; omega
+  | fuel + 1, i, buf, l, h => by
+    unfold chunksVar at h
+    split at h
+    · cases hc : chunksVar rs (i + 1) fuel (buf.drop (rs i)) with
+      | none => simp [hc] at h
+      | some l' =>
+        simp [hc] at h
+        subst h
+        intro j hj
+        cases j with
+        | zero => simp; omega
+        | succ k =>
+          have := chunksVar_le rs fuel (i + 1) _ l' hc k (by simpa using hj)
+          simp only [List.getElem_cons_succ]
+          have e : i + (k + 1) = i + 1 + k := by omega
+          rw [e]; exact this
+    · cases h
+      intro j hj
+      have : j = 0 := by simpa using hj
+      subst this; simp; omega
+
+theorem chunksVar_some (rs : Nat → Nat) (hrs : ∀ i, 0 < rs i) : ∀ (fuel i : Nat) (buf : Bytes),
+    buf.length ≤ fuel + rs i → ∃ l, chunksVar rs i fuel buf = some l
+  | 0, i, buf, h => by
+    unfold chunksVar
+    have : ¬ buf.length > rs i := by omega
+    simp [this]
+  | fuel + 1, i, buf, h => by
+    unfold chunksVar
+    by_cases hb : buf.length > rs i
+    · simp only [hb, if_true]
+      have h0 := hrs i
+      have h1 := hrs (i + 1)
+      have : (buf.drop (rs i)).length ≤ fuel + rs (i + 1) := by simp; omega
+      obtain ⟨l, hl⟩ := chunksVar_some rs hrs fuel (i + 1) (buf.drop (rs i)) this
+      exact ⟨buf.take (rs i) :: l, by simp [hl]⟩
+    · simp [hb]
+
+theorem chunksVar_const (r : Nat) : ∀ (fuel i : Nat) (buf : Bytes),
+    chunksVar (fun _ => r) i fuel buf = chunks r fuel buf
+  | 0, i, buf => by unfold chunksVar chunks; rfl
+  | fuel + 1, i, buf => by
+    unfold chunksVar chunks
+    rw [chunksVar_const r fuel (i + 1)]
+
 /-! ### padding -/
 
 theorem addPadding_length (bs : Nat) (x : Bytes) : (addPadding bs x).length = paddedLen bs x.length := by
